@@ -333,6 +333,7 @@ def recvStep (cfg : Cfg) (st : St) (now : Nat) (frame : Bytes) (d : Drawn) :
 * `f:<frame hex>:<now ms>:<iss>:<id>` — a frame through `recvStep` (iss/id: the values the
   implementation drew if the frame created a state, else 0)
 * `rb:<srcip>:<sp>:<dstip>:<dp>:<iss>` — rebase the send sequence space of a connection (hook)
+* `ri:<srcip>:<sp>:<dstip>:<dp>:<id>` — set the IPv4 identification counter of a connection (hook)
 
 Output per op: effects, then the TCB the frame's 4-tuple resolves to afterwards. -/
 
@@ -360,6 +361,15 @@ def rebase (st : St) (srcIP dstIP : Bytes) (sp dp : Nat) (iss : UInt32) : St :=
     | some s =>
       let d := iss - s.iss
       { slots := st.slots.set i (some { s with iss := s.iss + d, una := s.una + d, nxt := s.nxt + d }) }
+
+/-- hook `VerifSetID`: the connection's IPv4 identification counter as if `id` had been drawn -/
+def setId (st : St) (srcIP dstIP : Bytes) (sp dp : Nat) (id : UInt32) : St :=
+  match getIdx st.slots srcIP dstIP sp dp with
+  | none => st
+  | some i =>
+    match st.slots.getD i none with
+    | none => st
+    | some s => { slots := st.slots.set i (some { s with id := id }) }
 
 def frameTuple (frame : Bytes) : Option (Bytes × Bytes × Nat × Nat) :=
   match ethParse frame with
@@ -399,6 +409,11 @@ def runOps (cfg : Cfg) : St → List String → List String
       match unhex s, sp.toNat?, unhex d, dp.toNat?, iss.toNat? with
       | some s, some sp, some d, some dp, some iss =>
         "rb" :: runOps cfg (rebase st s d sp dp (UInt32.ofNat iss)) ops
+      | _, _, _, _, _ => ["bad-op"]
+    | ["ri", s, sp, d, dp, id] =>
+      match unhex s, sp.toNat?, unhex d, dp.toNat?, id.toNat? with
+      | some s, some sp, some d, some dp, some id =>
+        "ri" :: runOps cfg (setId st s d sp dp (UInt32.ofNat id)) ops
       | _, _, _, _, _ => ["bad-op"]
     | _ => ["bad-op"]
 
